@@ -311,8 +311,40 @@ def run_case(case):
             except Exception as e:
                 R.bad("copies-run-identically", "C08:model-copy-fails[%s]" % type(e).__name__, {"op": [i, cfg], "error": str(e)[:200]})
                 continue
+            # build once, copy, change the copy's instructions, process both (the what-if pattern): the sibling runs like a model
+            # built with those instructions, and its finished outputs do not move when the original is processed afterwards
+            sib = sib_arrays = None
+            if cfg == "programs" and own["instructions"] is not None:
+                try:
+                    def other(ins):
+                        ins.start_year = float(ins.start_year) + 2.0 * float(P.settings.sim_dt)
+                        for j_, (k_, ts) in enumerate(sorted(ins.alloc.items())):
+                            ts.vals = [v_ * (3.0 if j_ % 2 == 0 else 0.25) for v_ in ts.vals]
+                        return ins
+
+                    sib = sc.dcp(m)
+                    other(sib.program_instructions)
+                    m_ref = M.Model(P.settings, P.framework, own["parset"], own["progset"], other(sc.dcp(own["instructions"])))
+                    sib.process()
+                    sib_arrays = {k_: np.array(v_, copy=True) for k_, v_ in digest.result_arrays(at.Result(model=sib, parset=P.parsets[0])).items()}
+                    m_ref.process()
+                    dref = digest.compare_arrays(digest.result_arrays(at.Result(model=m_ref, parset=P.parsets[0])), sib_arrays)
+                    R.count("sibling_copies_with_other_instructions")
+                    if dref:
+                        R.bad("copies-run-identically", "C08:copied-model-with-other-instructions-differs-from-a-model-built-with-them", {"op": [i, cfg], "first_differences": [list(map(str, d)) for d in dref[:3]]})
+                    else:
+                        R.ok("copies-run-identically")
+                except Exception as e:
+                    R.count("sibling_copy_not_run[%s]" % type(e).__name__)
+                    sib = None
             m.process()
             base = digest.result_arrays(at.Result(model=m, parset=P.parsets[0]))
+            if sib is not None and sib_arrays is not None:
+                dsib = digest.compare_arrays(sib_arrays, digest.result_arrays(at.Result(model=sib, parset=P.parsets[0])))
+                if dsib:
+                    R.bad("copies-run-identically", "C08:finished-copy-changes-when-the-original-is-processed", {"op": [i, cfg], "first_differences": [list(map(str, d)) for d in dsib[:3]]})
+                else:
+                    R.ok("copies-run-identically")
             d0 = digest.compare_arrays(seen[(i, cfg)][1], base)
             if d0:
                 R.bad("copies-run-identically", "C08:manually-built-model-differs-from-run_sim", {"op": [i, cfg], "first_differences": [list(map(str, d)) for d in d0[:3]]})
